@@ -21,6 +21,10 @@ Input classes (all general; none is written for one known change):
   _huge       every op-form on the four 8192-bit instantiations.
 """
 from .common import *
+
+# other public routes to this property's operations (check.py step 2d): the neighbour generator's requests whose
+# operation matches are part of this run, answered by the neighbour's harness bin
+NEIGHBOURS = {"C17": r"(add|sub|neg)_", "C18": r"nt_((checked_|wrapping_|saturating_|overflowing_)?(add|sub|neg|abs)|abs_sub|inc|dec)\b"}
 from . import prim as _prim
 
 # the trusted leaf layer (Lean Prim.*) is validated against rustc's primitives in the same run
